@@ -24,7 +24,7 @@ META = {
     "assumptions": ["real operands (the interface recursions do not conjugate the test core)",
                     "generic sizes: rank families at different positions / of different trains are independent",
                     "the band-diagonal products (shifted diagonals re-padded by their offset) are not contraction networks and are not decided"],
-    "floors": {"ENRICH-WIDTH": 1, "ZERO-NORM": 6, "ARNOLDI-SEED": 1, "E5-CHAIN": 18, "IFACE-TYPE": 44, "DEF-ATTR": 20, "E3-PARAM": 3},
+    "floors": {"ENRICH-WIDTH": 1, "ZERO-NORM": 6, "ARNOLDI-SEED": 1, "E5-CHAIN": 18, "IFACE-TYPE": 30, "DEF-ATTR": 12, "E3-PARAM": 3},
 }
 ANCHORS = ["solvers.amen_solve", "solvers._amen_solve_python", "solvers._local_product", "solvers._LinearOp.matvec", "solvers._LinearOp.apply_prec",
            "solvers._compute_phi_fwd_A", "solvers._compute_phi_bck_A", "solvers._compute_phi_fwd_rhs", "solvers._compute_phi_bck_rhs",
